@@ -31,7 +31,16 @@ impl Certificate {
 
     /// Constructs a new `Certificate` from DER-encoded binary data.
     pub fn from_der(der: Vec<u8>) -> Result<Self, InvalidCertificate> {
-        X509Certificate::from_der(&der).map_err(|error| InvalidCertificate(error.to_string()))?;
+        let (remaining, _) = X509Certificate::from_der(&der)
+            .map_err(|error| InvalidCertificate(error.to_string()))?;
+
+        if !remaining.is_empty() {
+            return Err(InvalidCertificate(format!(
+                "{} trailing bytes after the certificate",
+                remaining.len()
+            )));
+        }
+
         Ok(Self(CertificateDer::from(der)))
     }
 
